@@ -454,9 +454,9 @@ theorem eq_Stmt {d d' : Gen.D} {L : Loc} (hC : L.Covers d d') : ∀ st, stmtDep 
   | .select q, _, hb => eq_Q hC q hb
   | .insertValues h vs, hs, hb => by
     simp only [anyStmt, Bool.or_eq_false_iff, List.any_eq_false, Bool.not_eq_true] at hb
-    have e1 : mapM' (fun r => (prList d r).map fun p => s!"({joinS ", " p})") vs
-        = mapM' (fun r => (prList d' r).map fun p => s!"({joinS ", " p})") vs :=
-      mapM'_congr _ _ vs (fun r hr => by simp only [eq_Es hC r (hb.1 r hr)])
+    have e1 : mapM' (fun r => (prList8 d r).map fun p => s!"({joinS ", " p})") vs
+        = mapM' (fun r => (prList8 d' r).map fun p => s!"({joinS ", " p})") vs :=
+      mapM'_congr _ _ vs (fun r hr => by simp only [eq_Es8 hC r (hb.1 r hr)])
     simp only [prStmt, e1, eq_Head hC h hs hb.2]
   | .insertSelect h q, hs, hb => by
     simp only [anyStmt, Bool.or_eq_false_iff] at hb
